@@ -34,6 +34,11 @@ mod iter;
 #[macro_use] mod macros;
 mod simd;
 
+#[cfg(httparse_verif)]
+#[doc(hidden)]
+#[path = "verif.rs"]
+pub mod _verif;
+
 #[doc(hidden)]
 // Expose some internal functions so we can bench them individually
 // WARNING: Exported for internal benchmarks, not fit for public consumption
